@@ -35,7 +35,7 @@ EXPECT_REACH = ['records_searched', 'secrets_searched', 'flavour.plain', 'flavou
 
 def generate(seed, tier):
     r = random.Random(f'C20gen:{seed}')
-    flavour = r.choice(['plain', 'plain', 'authfail', 'hostile', 'kerr', 'debug'])
+    flavour = r.choice(['plain', 'plain', 'authfail', 'hostile', 'kerr', 'kodd', 'debug'])
     o = {'conf': {'profile': 'fast', 'entries': 2}, 'both_initiate': r.random() < 0.4, 'packets': r.randint(1, 4),
          'duration': r.choice([20, 40]), 'forced': 3, 'faults': [k for k in ('drop', 'dup', 'corrupt') if r.random() < 0.3]}
     sc = workload.pair_scenario(seed, PROP, o)
@@ -57,6 +57,13 @@ def generate(seed, tier):
         for _ in range(r.randint(2, 6)):
             sc['ops'].append({'t': round(r.uniform(0.95, T), 3), 'op': 'kerr', 'node': r.choice('AB'), 'nth': r.randint(1, 4),
                               'errno': r.choice(['ENOMEM', 'EINVAL', 'EEXIST'])})
+    elif flavour == 'kodd':
+        # kernel events the daemon did not ask for: ACQUIREs of foreign policies or unknown peers, EXPIREs of unknown SPIs, truncated or
+        # unknown messages - every one of them ends on a failure path that logs something
+        for _ in range(r.randint(2, 6)):
+            sc['ops'].append({'t': round(r.uniform(0.6, T), 3), 'op': 'call', 'name': 'kodd', 'node': r.choice('AB'),
+                              'kind': r.choice(['unknown_type', 'truncated', 'acquire_unknown_peer', 'acquire_unknown_index', 'acquire_unknown_index',
+                                                'expire_unknown_spi', 'zeros', 'done']), 'seed': r.randrange(2 ** 31)})
     elif flavour == 'debug':
         sc['debug_log'] = True
     sc['ops'].sort(key=lambda x: x['t'])
@@ -189,7 +196,9 @@ def run(scenario):
             peer = meta['a_addr'] if op['node'] == 'B' else meta['b_addr']
             data, src = hostile.make(op, ctx['wire'], dst, peer, meta['family'])
             w.net.inject(data, src, dst, 0.0, 'forge.' + op['kind'])
-        ctx['handlers'] = {'hostile': do_hostile}
+        from checks.c17 import _handlers
+        ctx['reach'] = {}
+        ctx['handlers'] = {'hostile': do_hostile, 'kodd': _handlers(ctx)['kodd']}
     w = execute(scenario, setup, ctx)
     tap = ctx['tap']
     flavour = scenario['meta'].get('flavour')
